@@ -93,6 +93,28 @@ fn decode(tape: &[u32], tier: Tier) -> Case {
         schedules.push((th, delay));
     }
     schedules.push((1, 0)); // a repetition of the baseline itself (fresh network, same schedule)
+    let eval_scale: f32 = if t.chance(1, 5) { 1e-39 } else { 1.0 };
+    if eval_scale != 1.0 {
+        // subnormal values must reach the outputs: no biases, no sigmoid / soft-max
+        fn strip(l: &mut LayerSpec) {
+            match l {
+                LayerSpec::Dense { act, bias, .. } => {
+                    *bias = false;
+                    if matches!(act, ActK::Sigmoid | ActK::Softmax) {
+                        *act = ActK::Tanh;
+                    }
+                }
+                LayerSpec::Conv { act, .. } | LayerSpec::Deconv { act, .. } => {
+                    if matches!(act, ActK::Sigmoid | ActK::Softmax) {
+                        *act = ActK::Leaky;
+                    }
+                }
+                LayerSpec::Feedback { layers, .. } => layers.iter_mut().for_each(strip),
+                LayerSpec::Pool { .. } => {}
+            }
+        }
+        layers.iter_mut().for_each(strip);
+    }
     Case {
         spec: NetSpec { input, layers },
         kind,
@@ -104,7 +126,7 @@ fn decode(tape: &[u32], tier: Tier) -> Case {
         dseed: t.raw(),
         schedules,
         connects,
-        eval_scale: if t.chance(1, 5) { 1e-39 } else { 1.0 },
+        eval_scale,
     }
 }
 
